@@ -8,7 +8,9 @@ use ark_ec::{AffineRepr, CurveGroup, VariableBaseMSM};
 use ark_ff::PrimeField;
 use ark_poly::MultilinearExtension;
 use ark_serialize::serialize_to_vec;
-use ark_std::{marker::PhantomData, rand::RngCore, string::ToString, vec::Vec, UniformRand};
+use ark_std::{
+    format, marker::PhantomData, rand::RngCore, string::ToString, vec::Vec, UniformRand,
+};
 
 use blake2::Blake2s256;
 use digest::Digest;
@@ -433,6 +435,16 @@ where
             // Only polynomials with an even number of variables are
             // supported in this implementation
             return Err(Error::InvalidNumberOfVariables);
+        }
+
+        // Every commitment needs its own opening proof
+        let commitments: Vec<_> = commitments.into_iter().collect();
+        if commitments.len() != proof.len() {
+            return Err(Error::IncorrectInputLength(format!(
+                "expected one opening proof per commitment, got {} commitments and {} proofs",
+                commitments.len(),
+                proof.len()
+            )));
         }
 
         // Reversing the point is necessary because the MLE interface returns
